@@ -55,6 +55,11 @@ static void blk_values(void) {
 		ENC2("bit_string", asn1_bit_string_to_der(v, nbits, NULL, &dl_), asn1_bit_string_to_der(v, nbits, &p_, &wl_), b, bl); const uint8_t *cp = b, *g; size_t il = bl, gb; int r = asn1_bit_string_from_der(&g, &gb, &cp, &il); size_t kk[2] = { nbits, (size_t)pat }; vh_eval(vh_hash(kk, sizeof kk, 4));
 		if (r != 1 || il || gb != nbits || (nby && memcmp(g, v, nby))) viol_rt("bit_string", "roundtrip", "\"nbits\":%zu,\"enc\":\"%s\",\"ret\":%d,\"gotbits\":%zu", nbits, vh_hex(b, bl), r, gb);
 		if (bl != 3 + nby || b[0] != 3 || b[1] != nby + 1 || b[2] != (uint8_t)(nby * 8 - nbits)) viol_rt("bit_string", "not-canonical", "\"nbits\":%zu,\"enc\":\"%s\"", nbits, vh_hex(b, bl)); } }
+	/* named-bit lists (asn1_bits: an int whose bit i is list member i): 0, every single bit 0..30, every pair, every run 2^k - 1, through the universal and an implicit tag */
+	if (vh_block_begin("val-bits")) { for (int i = -1; i < 31; i++) for (int j = i; j < 32; j++) { if (!vh_next()) continue; int v = i < 0 ? (j < 0 ? 0 : (j == 31 ? 0x7fffffff : (int)((1u << (j + 1)) - 1))) : (j == 31 ? (int)((1u << i) | 0x40000000u) : (int)((1u << i) | (1u << j)));
+			for (int impl = 0; impl < 2; impl++) { uint8_t ob[16], *p = ob; size_t wl = 0, dl = 0; int r0 = impl ? asn1_implicit_bits_to_der(2, v, NULL, &dl) : asn1_bits_to_der(v, NULL, &dl); int r1 = impl ? asn1_implicit_bits_to_der(2, v, &p, &wl) : asn1_bits_to_der(v, &p, &wl); size_t kk[3] = { (size_t)(i + 1), (size_t)j, (size_t)impl }; vh_eval(vh_hash(kk, sizeof kk, 44));
+				if (v == 0 && r1 == 0) continue; /* an empty list is "absent" */ if (r0 != 1 || r1 != 1 || wl != dl || wl > 7) { viol_rt("bits", "encode", "\"value\":%d,\"implicit\":%d,\"ret\":%d,\"len\":%zu", v, impl, r1, wl); continue; }
+				const uint8_t *cp = ob; size_t il = wl; int g = -5; int r = impl ? asn1_implicit_bits_from_der(2, &g, &cp, &il) : asn1_bits_from_der(&g, &cp, &il); if (r != 1 || il || g != v) viol_rt("bits", "roundtrip", "\"value\":%d,\"implicit\":%d,\"enc\":\"%s\",\"ret\":%d,\"got\":%d", v, impl, vh_hex(ob, wl), r, g); } } }
 	if (vh_block_begin("val-oid")) { static const uint32_t AV[] = { 0, 1, 39, 127, 128, 16383, 16384, 1u << 21, (1u << 28) - 1, 1u << 28, 0xffffffffu };
 		for (size_t cnt = 2; cnt <= 33; cnt++) for (int a = 0; a < 11; a++) for (int first = 0; first < 3; first++) { if (!vh_next()) continue; uint32_t nodes[40]; nodes[0] = (uint32_t)first; nodes[1] = first < 2 ? (AV[a] > 39 ? 39 : AV[a]) : AV[a] > 0xffffff00u ? 47 : AV[a]; for (size_t i = 2; i < cnt; i++) nodes[i] = AV[(a + i) % 11];
 			size_t kk[3] = { cnt, (size_t)a, (size_t)first }; vh_eval(vh_hash(kk, sizeof kk, 5)); size_t dl = 0; int r0 = asn1_object_identifier_to_der(nodes, cnt, NULL, &dl);
